@@ -49,6 +49,7 @@ const K_EPOCH: usize = 7;
 const K_REPEAT: usize = 8;
 
 pub struct Plan {
+    pub max_blocks: Option<usize>,
     pub pars_hint: Option<Vec<usize>>,
     pub cfg: RunCfg,
     pub len: usize,
@@ -104,6 +105,8 @@ pub struct Limits {
     /// parallel widths of backends that exist only on another target (the list is generated natively
     /// but executed by the interpreter on that target): batch lengths are also drawn around these
     pub pars_hint: Option<Vec<usize>>,
+    /// cap on the number of blocks per call (interpreter cost)
+    pub max_blocks: Option<usize>,
 }
 
 pub fn plan(reg: &Registry, prop: Prop, rng: &mut Prng) -> Plan {
@@ -116,6 +119,7 @@ pub fn plan_limited(reg: &Registry, prop: Prop, rng: &mut Prng, lim: &Limits) ->
         p.len = p.len.min(m);
     }
     p.pars_hint = lim.pars_hint.clone();
+    p.max_blocks = lim.max_blocks;
     p
 }
 
@@ -239,6 +243,7 @@ fn plan_inner(reg: &Registry, prop: Prop, rng: &mut Prng, lim: &Limits) -> Plan 
         shape_w[3] = 1;
     }
     Plan {
+        max_blocks: None,
         pars_hint: None,
         cfg: RunCfg { variants, mask, tasks, strict_arena },
         len,
@@ -572,6 +577,7 @@ impl Gen {
             _ => par,
         };
         let maxn = ((REGION - 64) / 2 / bs).max(1);
+        let maxn = plan.max_blocks.map(|m| m.min(maxn)).unwrap_or(maxn);
         let n = if shape.single() {
             1
         } else {
